@@ -487,15 +487,8 @@ pub fn run(args: &Args) -> (Meta, Stats) {
                     (format!("{lead}{d}{tail}"), random_opts(&mut rng, &ctxs))
                 },
             };
-            // "</>" produces no token, only a tokenizer parse error; html5ever lets a parse error
-            // that arrives between <pre>/<listing>/<textarea> and the LF cancel the "ignore a
-            // leading LF" step (a finding of this check, witness "<pre></>\nx"). The reference
-            // tokenizer does not report parse errors, so the model cannot reproduce it by a
-            // switch: the sequence is removed from the inputs instead.
-            // The same happens for an LF written as a numeric character reference with a parse error
-            // (witness "<textarea>&#xa" at EOF): "&#" is defused as well (numeric references are
-            // the tokenizer check's business).
-            let input = if input.contains("</>") || input.contains("&#") { input.replace("</>", "").replace("&#", "#") } else { input };
+            // (a parse error between <pre>/<listing>/<textarea> and a following LF used to cancel the
+            // "ignore a leading LF" step in html5ever; repaired by a fix: commit, so "</>" and "&#" stay in)
             let input = truncate_chars(input, MAX_INPUT_CHARS);
             if input.contains("selectedcontent") {
                 continue;
@@ -520,7 +513,6 @@ pub fn run(args: &Args) -> (Meta, Stats) {
             "the fragment context element is parentless and no form element is passed (html5ever's parse_fragment API)",
             "selectedcontent is out of the vocabulary (option cloning is a sink operation)",
             "the initial quirks-mode option is varied for fragment parses only (for a document parse it is outside the specification's domain: html5ever assigns NoQuirks on a non-quirky DOCTYPE, the specification never resets the mode)",
-            "'</>' and '&#' are removed from the inputs: html5ever lets a tokenizer parse error that arrives between <pre>/<listing>/<textarea> and a following LF cancel the 'ignore a leading LF' step (finding of this check; the reference tokenizer reports no parse errors, so no model switch can reproduce it)",
             "undecided constructs are skipped: an input start tag in a select fragment context (counter skipped_undecided:*)",
             "the duplicate-attribute flag of a </br> end tag is kept on the br element it creates (model choice; the HTML Standard has no such flag)",
             "the reference model was written from memory of the WHATWG text (no spec copy offline); clauses marked SPEC-UNSURE in reftree.rs",
